@@ -217,4 +217,73 @@ theorem cfLoop_exact {t : Rat} (h0 : 0 < t) (h1 : t < 1) {maxNum : Int} (hmax : 
   conv_lhs => rw [← Rat.num_div_den t]
   rw [sub_zero, one_div, inv_div]
 
+theorem fv_init_default (n : Rat) : FV.init (some n) FracArg.default = .ok ⟨n, ⟨0⟩⟩ := by
+  have h0 : Frac.init (.fin 0) (some (.fin 1)) = .ok ⟨0⟩ := by
+    have := init_fin_fin 0 1 (by norm_num)
+    rw [this]
+    have := normalise_int 0 1
+    simpa using this
+  simp [FV.init, setFraction, FracArg.default, h0]
+
+/-- `CreateFromFloat` of an integer-valued number -/
+theorem createFromFloat_of_int {d : Rat} (hd : d.den = 1) : createFromFloat d = .ok ⟨d, ⟨0⟩⟩ := by
+  unfold createFromFloat
+  rw [if_pos hd, fv_init_default]
+
+/-- the wrapper around the loop, given what the digit handling delivers -/
+theorem createFromFloat_of_parts {d : Rat} (hd : d.den ≠ 1) {dp fdp : DecParts}
+    (h1 : decParts |d| = some dp)
+    (h2 : getFractionalPart |d| dp = |d| - (⌊|d|⌋ : Rat))
+    (h3 : decParts (|d| - (⌊|d|⌋ : Rat)) = some fdp)
+    (h4 : (|d| - (⌊|d|⌋ : Rat)).num ≤ getMaxNumerator fdp)
+    (h5 : (|d| - (⌊|d|⌋ : Rat)).num < 2 ^ 498) :
+    ∃ v, createFromFloat d = .ok v ∧ v.value = d := by
+  set t := |d| - (⌊|d|⌋ : Rat) with ht
+  have hnotint : (⌊|d|⌋ : Rat) ≠ |d| := by
+    intro h
+    apply hd
+    have habs : |d|.den = d.den := by
+      rcases abs_choice d with h' | h' <;> rw [h']
+      simp
+    rw [← habs, ← h]
+    simp
+  have ht0 : 0 < t := by
+    have := Int.floor_le |d|
+    rw [ht]
+    rcases lt_or_eq_of_le this with h | h
+    · linarith
+    · exact absurd h hnotint
+  have ht1 : t < 1 := by
+    have := Int.lt_floor_add_one |d|
+    rw [ht]; linarith
+  have hloop := cfLoop_exact ht0 ht1 h4 h5
+  have hlt : t.num < (t.den : Int) := by
+    have := (Rat.lt_iff t 1).mp ht1
+    simpa using this
+  have hne : t.num ≠ (t.den : Int) := ne_of_lt hlt
+  unfold createFromFloat
+  rw [if_neg hd]
+  simp only [absR_eq_abs, h1, h2, floor_eq, h3, hloop, if_neg hne]
+  have hden : ((t.den : Int) : Rat) ≠ 0 := by exact_mod_cast t.den_nz
+  have hval : ((t.num : Int) : Rat) / ((t.den : Int) : Rat) = t := num_div_den' t
+  by_cases hneg : d < 0
+  · rw [if_pos hneg]
+    have e1 : (-1 : Rat) * ((t.num : Int) : Rat) = ((-t.num : Int) : Rat) := by push_cast; ring
+    refine ⟨⟨-1 * (⌊|d|⌋ : Rat), ⟨((-t.num : Int) : Rat) / ((t.den : Int) : Rat)⟩⟩, ?_, ?_⟩
+    · simp only [FV.init, setFraction]
+      rw [e1, init_fin_fin _ _ hden, normalise_int]
+    · simp only [FV.value, Frac.toFloat]
+      push_cast
+      have hval' : (t.num : Rat) / (t.den : Rat) = t := Rat.num_div_den t
+      rw [neg_div, hval', ht, abs_of_neg hneg]
+      ring
+  · rw [if_neg hneg]
+    have e1 : (1 : Rat) * ((t.num : Int) : Rat) = ((t.num : Int) : Rat) := by ring
+    refine ⟨⟨1 * (⌊|d|⌋ : Rat), ⟨((t.num : Int) : Rat) / ((t.den : Int) : Rat)⟩⟩, ?_, ?_⟩
+    · simp only [FV.init, setFraction]
+      rw [e1, init_fin_fin _ _ hden, normalise_int]
+    · simp only [FV.value, Frac.toFloat]
+      rw [hval, ht, abs_of_nonneg (not_lt.mp hneg)]
+      ring
+
 end Barril.Frac
